@@ -2,7 +2,7 @@
 formulas of several BIOGEME objects and by separate evaluations.  A script of steps is run:
     ['new', m]        objects[m] = BIOGEME(database, {'f': formula m})            m in E, P, Q
     ['sim', m, k]     objects[m].simulate(value set k)            -> one value per row
-    ['gvc', m, k]     formula m .get_value_c(database, betas = value set k, prepare_ids=True)
+    ['gvc', m, k]     formula m .get_value_c(database, betas = value set k, prepare_ids=True); k = null: no dictionary (initial values)
     ['fn', m, k]      function created ONCE by formula m .create_function(database) called at value set k (sum over rows)
     ['ll', m, k]      objects[m].calculate_likelihood(x_k, scaled=False) when m was built with log_like = formula m
 Every value is returned; the harness compares it with the enclosure of the formula at that value set."""
@@ -44,8 +44,10 @@ for c in payload['cases']:
                     objects[m].save_iterations = False
                     res['steps'].append('ok')
                     continue
-                vals = c['valsets'][step[2]]
+                vals = c['valsets'][step[2] if step[2] is not None else 0]
                 free = {k: v for k, v in vals.items() if not c['betas'][k]['fixed']}
+                if step[2] is None:
+                    free = None          # no dictionary: the initial values of the parameters
                 if op == 'sim':
                     names = objects[m].id_manager.free_betas.names
                     df = objects[m].simulate({k: free[k] for k in names})
